@@ -8,8 +8,11 @@ MimeOf(i) == IF i = 1 THEN "text/html" ELSE IF i = 2 THEN "image/png" ELSE "text
 MCPayloads == { [size |-> s, id |-> i, mime |-> MimeOf(i)] : s \in MCSizes, i \in MCIds }
 
 \* "/a" is served from file f under every host, "/b" from g, anything else resolves to nothing
-MCFileOf == [k \in Keys |-> IF k[1] = "/a" /\ "f" \in Files THEN "f"
-                            ELSE IF k[1] = "/b" /\ "g" \in Files THEN "g" ELSE "-"]
+\* "/d/" is a directory whose index file is f, "/d" the same directory named without the slash (301)
+MCFileOf == [k \in Keys |-> IF k[1] \in {"/a", "/d/"} /\ "f" \in Files THEN "f"
+                            ELSE IF k[1] = "/b" /\ "g" \in Files THEN "g"
+                            ELSE IF k[1] = "/d" THEN "/" ELSE "-"]
+MCStrip == [r \in Routes |-> IF r = "/d/" THEN "/d" ELSE r]
 
 ClockBound == clock <= MaxClock
 \* `op` only describes the last step (read by the action properties); it is not part of the view
